@@ -40,13 +40,20 @@ def gen_random(rng, count, min_res, max_res, min_wait, max_wait):
         nres = rng.randint(min_res, max_res)
         nwait = rng.randint(min_wait, max_wait)
         kinds = [rng.choice(RKINDS) for _ in range(nres)] + [rng.choice(WKINDS) for _ in range(nwait)]
-        if rng.random() < 0.75 or nres == 0:
+        force_assign = False
+        if nres == 0 and rng.random() < 0.5:
+            force_assign = True          # nobody invokes the promise: its life ends by move-assignment of an empty promise
+        elif rng.random() < 0.75 or nres == 0:
             kinds.append("d")
         rng.shuffle(kinds)
         threads = [thread_line(rng, k, j) for j, k in enumerate(kinds)]
         n = len(threads)
         sched = random_sched(rng, n, rng.randint(0, 8 * n))
-        cases.append(make_case(threads, sched, rng.choice(TYPES)))
+        c = make_case(threads, sched, rng.choice(TYPES))
+        if "d" not in kinds and (force_assign or rng.random() < 0.5):
+            # the controller ends the promise's life by move-assigning an empty promise over it (must drop the future)
+            c["lines"].insert(len(c["lines"]) - 2, "assign-end")
+        cases.append(c)
     return cases
 
 
@@ -124,7 +131,7 @@ class ChainSuite(Suite):
     nontrivial_rule = "the effective interleaving (sequence of synchronising operations) differs from every other case and contains a context switch"
 
     def distinct_key(self, case, out):
-        return case["lines"][0].split()[3] + "|" + "|".join(case["lines"][1:-2]) + "|" + "|".join(l for l in out if l.startswith("s "))
+        return case["lines"][0].split()[3] + "|" + "|".join(l for l in case["lines"][1:-1] if not l.startswith("sched")) + "|" + "|".join(l for l in out if l.startswith("s "))
 
     def nontrivial(self, case, out):
         tids = [l.split()[1] for l in out if l.startswith("s ")]
@@ -133,7 +140,7 @@ class ChainSuite(Suite):
     def stats(self, cases, outs):
         shapes, types, switches, dl = {}, {}, 0, 0
         for c in cases:
-            k = " ".join(sorted(l.split()[1] if l.split()[0] != "d" else "d" for l in c["lines"][1:-2]))
+            k = " ".join(sorted((l.split()[1] if l.split()[0] in ("r", "w") else l.split()[0]) for l in c["lines"][1:-2]))
             shapes[k] = shapes.get(k, 0) + 1
             T = c["lines"][0].split()[3]
             types[T] = types.get(T, 0) + 1
